@@ -358,79 +358,11 @@ def run(ctx) -> None:
                   f"config.{which}: file patterns are not compiled with the configured version pattern",
                   f"{[unparse(c) for c in calls]}", loc=f.loc())
 
+    default_calendar_rule(ctx, "R4")
+
     # ---------------------------------------------------------------- R5
     self_pattern_rule(ctx, "R5")
-    prc = prog.function("config._parse_raw_config")
-    dp = prog.function("config._parse_current_version_default_pattern")
-    ctx.visit(dp.fq)
-    rets = [n for n in walk_no_nested(dp.node) if isinstance(n, ast.Return)]
-    ctx.require(len(rets) >= 1, "_parse_current_version_default_pattern has no return")
-    for r in rets:
-        v = r.value
-        ok = isinstance(v, ast.Call) and isinstance(v.func, ast.Attribute) and v.func.attr == "replace" and len(v.args) == 2 \
-            and unparse(shapes.resolve_alias(dp, v.args[0])).replace('"', "'") == "raw_cfg['current_version']" \
-            and unparse(shapes.resolve_alias(dp, v.args[1])).replace('"', "'") == "raw_cfg['version_pattern']"
-        ctx.check("R5", ok, "_parse_current_version_default_pattern: returns the line with current_version replaced by version_pattern",
-                  "config._parse_current_version_default_pattern: self pattern is not the current_version line with the pattern substituted",
-                  f"`{unparse(r)}`", loc=dp.loc(r))
-
-    # section headers: only exact bumpver/pycalver headers switch the section flag on
-    dcfg = cfgs.get(dp.fq)
-    dpc = PathCond(dcfg)
-    # the line is taken only inside the section: return <=> flag and the line starts with `current_version`
-    flag_names = {unparse(t_) for n_ in dcfg.nodes if n_.kind == "stmt" and isinstance(n_.ast, ast.Assign) and isinstance(n_.ast.value, ast.Constant) and isinstance(n_.ast.value.value, bool)
-                  for t_ in n_.ast.targets}
-    for r in rets:
-        rc = dpc.reach(dcfg.node_containing(r.value) if r.value is not None else dcfg.nodes_of(r)[0]).drop_unused()
-        fl = [a for a in rc.atoms if a in flag_names]
-        st = [a for a in rc.atoms if "startswith('current_version" in a.replace('"', "'")]
-        ok = len(fl) == 1 and len(st) == 1 and rc.project(fl + st).equiv(BF.var(fl[0]) & BF.var(st[0]))
-        ctx.check("R5", ok, "self-pattern parser: the current_version line is taken only inside a bumpver section",
-                  "config._parse_current_version_default_pattern: a current_version line outside the bumpver section can be taken as the self pattern",
-                  f"returns when {rc.to_dnf()}; required: <in section> & <line starts with current_version>", loc=dp.loc(r), witness={"file": "[metadata]\ncurrent_version = 0.1\n[bumpver]\ncurrent_version = 1.2.3"})
-    # ... and any other section header ends the section: the flag is cleared exactly for a non-empty line that starts with '[' and ends with ']'
-    off = [n for n in dcfg.nodes if n.kind == "stmt" and isinstance(n.ast, ast.Assign) and isinstance(n.ast.value, ast.Constant) and n.ast.value.value is False and n.id in dcfg.reachable()
-           and any(unparse(t_) in flag_names for t_ in n.ast.targets) and shapes.enclosing_loops(dp, n.ast)]
-    ctx.floor("R5", "section-end assignments in the self-pattern parser", len(off), 1)
-    for n in off:
-        ro = dpc.reach(n.id).drop_unused()
-        lv = None
-        for lp_ in shapes.enclosing_loops(dp, n.ast):
-            if isinstance(lp_, ast.For) and isinstance(lp_.target, ast.Name):
-                lv = lp_.target.id
-        opens = [a for a in ro.atoms if a.replace('"', "'") in (f"{lv}[0] == '['", f"{lv}.startswith('[')", f"{lv}.strip().startswith('[')", f"{lv}.strip()[0] == '['")]
-        closes = [a for a in ro.atoms if a.replace('"', "'") in (f"{lv}[-1] == ']'", f"{lv}.endswith(']')", f"{lv}.strip().endswith(']')", f"{lv}.strip()[-1] == ']'")]
-        nonempty = [a for a in ro.atoms if a in (lv, f"{lv}.strip()")]
-        ok = len(opens) == 1 and len(closes) == 1
-        if ok:
-            want = BF.var(opens[0]) & BF.var(closes[0])
-            keep = [opens[0], closes[0]]
-            if nonempty and not opens[0].endswith("startswith('[')"):
-                want = want & BF.var(nonempty[0])
-                keep.append(nonempty[0])
-            ok = ro.project(keep).equiv(want)
-        ctx.check("R5", ok, "self-pattern parser: the section ends at the next `[...]` header line",
-                  "config._parse_current_version_default_pattern: the end of the bumpver section is not recognised by a `[...]` header line",
-                  f"the section flag is cleared when {ro.to_dnf()}; required: the line is non-empty, starts with '[' and ends with ']' (and is not a bumpver header): otherwise a "
-                  f"current_version line of a later section is taken as the config's own pattern", loc=dp.loc(n.ast))
-    on = [n for n in dcfg.nodes if n.kind == "stmt" and isinstance(n.ast, ast.Assign) and isinstance(n.ast.value, ast.Constant) and n.ast.value.value is True and n.id in dcfg.reachable()]
-    ctx.floor("R5", "section-start assignments in the self-pattern parser", len(on), 1)
-    headers = set()
-    exact = True
-    for n in on:
-        r = dpc.reach(n.id).drop_unused()
-        pos = [a for a in r.atoms if r.implies(BF.var(a))]
-        hit = False
-        for a in pos:
-            hs = header_literals_of_test(prog, dp, ast.parse(a, mode="eval").body)
-            if hs:
-                headers |= hs
-                hit = True
-        exact = exact and hit
-    want_h = {"[pycalver]", "[bumpver]", "[tool.bumpver]"}
-    ctx.check("R5", exact and headers == want_h, "self-pattern parser: the section flag is set only by the exact headers [pycalver] / [bumpver] / [tool.bumpver]",
-              "config._parse_current_version_default_pattern: section detection is not an exact header match (a foreign section's current_version line can be picked)",
-              f"exact={exact}, headers={sorted(headers)}", loc=dp.loc(), witness={"section": "[tool.bumpversion]"})
+    section_scan_rule(ctx, "R5")
 
     # ---------------------------------------------------------------- R6
     canonical_keys_rule(ctx, "R6")
@@ -636,3 +568,119 @@ def self_pattern_rule(ctx, rule: str) -> None:
                   "config._parse_raw_config: inserted self pattern does not come from the current_version line",
                   f"`{unparse(st)}`: a fixed text such as 'current_version = \"{{version}}\"' does not match a config that writes the value with other quotes or spacing "
                   f"(TOML allows single quotes), so that file's own current_version is never updated", loc=prc.loc(st), witness={"pyproject.toml": "current_version = '1.2.3'"})
+
+
+CAL_LOCALS = ("date", "year_y", "year_g", "month", "dom", "doy", "week_w", "week_u", "week_v")
+
+
+def default_calendar_rule(ctx, rule: str) -> None:
+    """The new version is re-read from its text before the files are rewritten; a version without calendar parts must read
+    back with today's calendar (all or nothing), otherwise a date-only file pattern (`Copyright 2019-YYYY`) is rendered
+    from empty fields.  The guard of `date = version.TODAY` is folded: true when nothing was parsed, false as soon as one
+    calendar value - a week number 0 included - was parsed."""
+    from sa.model import CannotFold
+    prog = ctx.prog
+    pf = prog.function("v2version.parse_field_values_to_cinfo")
+    ctx.visit(pf.fq)
+    body = pf.node.body
+    guards = [st for st in body if isinstance(st, ast.If) and any(isinstance(a, ast.Assign) and unparse(a.value).endswith("TODAY") and unparse(a.targets[0]) == "date" for a in st.body)]
+    inline = [st for st in body if isinstance(st, ast.Assign) and unparse(st.targets[0]) == "date" and isinstance(st.value, ast.IfExp) and unparse(st.value.body).endswith("TODAY")]
+    ctx.require(len(guards) + len(inline) == 1, "parse_field_values_to_cinfo: the place where today's date is substituted for an empty calendar was not found")
+    g = guards[0] if guards else inline[0]
+    test = g.test if guards else g.value.test
+    gi = body.index(g)
+    need = {n.id for n in ast.walk(test) if isinstance(n, ast.Name)} - set(CAL_LOCALS)
+    pre = [st for st in body[:gi] if isinstance(st, ast.Assign) and len(st.targets) == 1 and isinstance(st.targets[0], ast.Name) and st.targets[0].id in need]
+    wrong: T.List[str] = []
+    try:
+        for k in [None] + list(CAL_LOCALS):
+            env: T.Dict[str, T.Any] = {n: None for n in CAL_LOCALS}
+            if k is not None:
+                env[k] = "D" if k == "date" else 0
+            prog._propagate(pf.module, pre, env, pf.fq)
+            got = bool(prog.fold(pf.module, test, env))
+            if got != (k is None):
+                wrong.append("nothing parsed -> today's calendar is NOT used" if k is None else f"{k} parsed (0) -> mixed with today's calendar")
+    except CannotFold as ex:
+        raise AnalysisError(f"parse_field_values_to_cinfo: guard of the today default not foldable: {ex}")
+    ctx.check(rule, not wrong, "parse_field_values_to_cinfo: today's calendar is used exactly when no calendar value was parsed (folded for 10 cases)",
+              "v2version.parse_field_values_to_cinfo: the today default is applied under the wrong condition",
+              f"`{unparse(test)}`: {'; '.join(wrong[:3])} - the re-read new version has empty calendar fields, date-only file patterns are rendered from them", loc=pf.loc(g),
+              witness={"cases": wrong[:4]})
+
+
+def section_scan_rule(ctx, rule: str) -> None:
+    """The self-pattern parser scans the config text: the current_version line is taken only inside a bumpver section,
+    the section starts at an exact header and ends at the next `[...]` header line."""
+    prog, cfgs = ctx.prog, ctx.cfgs
+    prc = prog.function("config._parse_raw_config")
+    dp = prog.function("config._parse_current_version_default_pattern")
+    ctx.visit(dp.fq)
+    rets = [n for n in walk_no_nested(dp.node) if isinstance(n, ast.Return)]
+    ctx.require(len(rets) >= 1, "_parse_current_version_default_pattern has no return")
+    for r in rets:
+        v = r.value
+        ok = isinstance(v, ast.Call) and isinstance(v.func, ast.Attribute) and v.func.attr == "replace" and len(v.args) == 2 \
+            and unparse(shapes.resolve_alias(dp, v.args[0])).replace('"', "'") == "raw_cfg['current_version']" \
+            and unparse(shapes.resolve_alias(dp, v.args[1])).replace('"', "'") == "raw_cfg['version_pattern']"
+        ctx.check(rule, ok, "_parse_current_version_default_pattern: returns the line with current_version replaced by version_pattern",
+                  "config._parse_current_version_default_pattern: self pattern is not the current_version line with the pattern substituted",
+                  f"`{unparse(r)}`", loc=dp.loc(r))
+
+    # section headers: only exact bumpver/pycalver headers switch the section flag on
+    dcfg = cfgs.get(dp.fq)
+    dpc = PathCond(dcfg)
+    # the line is taken only inside the section: return <=> flag and the line starts with `current_version`
+    flag_names = {unparse(t_) for n_ in dcfg.nodes if n_.kind == "stmt" and isinstance(n_.ast, ast.Assign) and isinstance(n_.ast.value, ast.Constant) and isinstance(n_.ast.value.value, bool)
+                  for t_ in n_.ast.targets}
+    for r in rets:
+        rc = dpc.reach(dcfg.node_containing(r.value) if r.value is not None else dcfg.nodes_of(r)[0]).drop_unused()
+        fl = [a for a in rc.atoms if a in flag_names]
+        st = [a for a in rc.atoms if "startswith('current_version" in a.replace('"', "'")]
+        ok = len(fl) == 1 and len(st) == 1 and rc.project(fl + st).equiv(BF.var(fl[0]) & BF.var(st[0]))
+        ctx.check(rule, ok, "self-pattern parser: the current_version line is taken only inside a bumpver section",
+                  "config._parse_current_version_default_pattern: a current_version line outside the bumpver section can be taken as the self pattern",
+                  f"returns when {rc.to_dnf()}; required: <in section> & <line starts with current_version>", loc=dp.loc(r), witness={"file": "[metadata]\ncurrent_version = 0.1\n[bumpver]\ncurrent_version = 1.2.3"})
+    # ... and any other section header ends the section: the flag is cleared exactly for a non-empty line that starts with '[' and ends with ']'
+    off = [n for n in dcfg.nodes if n.kind == "stmt" and isinstance(n.ast, ast.Assign) and isinstance(n.ast.value, ast.Constant) and n.ast.value.value is False and n.id in dcfg.reachable()
+           and any(unparse(t_) in flag_names for t_ in n.ast.targets) and shapes.enclosing_loops(dp, n.ast)]
+    ctx.floor(rule, "section-end assignments in the self-pattern parser", len(off), 1)
+    for n in off:
+        ro = dpc.reach(n.id).drop_unused()
+        lv = None
+        for lp_ in shapes.enclosing_loops(dp, n.ast):
+            if isinstance(lp_, ast.For) and isinstance(lp_.target, ast.Name):
+                lv = lp_.target.id
+        opens = [a for a in ro.atoms if a.replace('"', "'") in (f"{lv}[0] == '['", f"{lv}.startswith('[')", f"{lv}.strip().startswith('[')", f"{lv}.strip()[0] == '['")]
+        closes = [a for a in ro.atoms if a.replace('"', "'") in (f"{lv}[-1] == ']'", f"{lv}.endswith(']')", f"{lv}.strip().endswith(']')", f"{lv}.strip()[-1] == ']'")]
+        nonempty = [a for a in ro.atoms if a in (lv, f"{lv}.strip()")]
+        ok = len(opens) == 1 and len(closes) == 1
+        if ok:
+            want = BF.var(opens[0]) & BF.var(closes[0])
+            keep = [opens[0], closes[0]]
+            if nonempty and not opens[0].endswith("startswith('[')"):
+                want = want & BF.var(nonempty[0])
+                keep.append(nonempty[0])
+            ok = ro.project(keep).equiv(want)
+        ctx.check(rule, ok, "self-pattern parser: the section ends at the next `[...]` header line",
+                  "config._parse_current_version_default_pattern: the end of the bumpver section is not recognised by a `[...]` header line",
+                  f"the section flag is cleared when {ro.to_dnf()}; required: the line is non-empty, starts with '[' and ends with ']' (and is not a bumpver header): otherwise a "
+                  f"current_version line of a later section is taken as the config's own pattern", loc=dp.loc(n.ast))
+    on = [n for n in dcfg.nodes if n.kind == "stmt" and isinstance(n.ast, ast.Assign) and isinstance(n.ast.value, ast.Constant) and n.ast.value.value is True and n.id in dcfg.reachable()]
+    ctx.floor(rule, "section-start assignments in the self-pattern parser", len(on), 1)
+    headers = set()
+    exact = True
+    for n in on:
+        r = dpc.reach(n.id).drop_unused()
+        pos = [a for a in r.atoms if r.implies(BF.var(a))]
+        hit = False
+        for a in pos:
+            hs = header_literals_of_test(prog, dp, ast.parse(a, mode="eval").body)
+            if hs:
+                headers |= hs
+                hit = True
+        exact = exact and hit
+    want_h = {"[pycalver]", "[bumpver]", "[tool.bumpver]"}
+    ctx.check(rule, exact and headers == want_h, "self-pattern parser: the section flag is set only by the exact headers [pycalver] / [bumpver] / [tool.bumpver]",
+              "config._parse_current_version_default_pattern: section detection is not an exact header match (a foreign section's current_version line can be picked)",
+              f"exact={exact}, headers={sorted(headers)}", loc=dp.loc(), witness={"section": "[tool.bumpversion]"})
